@@ -856,7 +856,7 @@ def _a_convert():
     want = [
         "if nodata is not None and (not rio.dtypes.can_cast_dtype(nodata, dtype)):\n    raise ValueError(f\"'nodata' value: {nodata} cannot be safely cast to '{dtype}'\")",
         "unsafe_cast = not np.can_cast(self.dtype, dtype, casting='safe')",
-        'nodata_change = nodata is not None and (not utils.nan_equals(nodata, self.nodata))',
+        'nodata_change = nodata is not None and (self.nodata is None or not utils.nan_equals(nodata, self.nodata))',
         'array = self._array',
         'if nodata_change or unsafe_cast:\n    array = array.astype(np.promote_types(self.dtype, dtype), copy=True)',
         'if unsafe_cast and np.issubdtype(self.dtype, np.floating) and np.issubdtype(dtype, np.integer):\n    np.round(array, out=array)',
